@@ -76,13 +76,14 @@ def outTables (tb : Tables) : Scalar → Table
 
 /-- which listed deviation an unsound output arm belongs to -/
 def flagOfArm (nulls : Bool) (s : Scalar) (k : Kind) (a : Action) : String :=
+  let floatScalar := s == .float || s == .float64
   match a with
   | .parseIntKeep _ | .parseInt32Keep | .parseBoolKeep | .timeParseKeep | .convCheckedKeep _ =>
     if nulls then "D16-int" else "D15"
-  | .parseFloatKeep _ => if nulls then "D16" else "D15"
+  | .parseFloatKeep _ => if nulls then "D16-float" else "D15"
   | .fmtInt => "D48"
-  | .conv _ => if k.isInt && (s == .int || s == .int64) then "D16-int" else "D16"
-  | _ => if (s == .float || s == .float64) && k == .str && !nulls then "D15" else "D16"
+  | .conv _ => if k.isInt && (s == .int || s == .int64) then "D16-int" else if floatScalar then "D16-float" else "D16"
+  | _ => if floatScalar && k == .str && !nulls then "D15" else if floatScalar then "D16-float" else "D16"
 
 /-- deviations exercised by this case -/
 partial def attribution (tb : Tables) : TRef → Data Nat → List String
@@ -140,7 +141,7 @@ def hasKeep (tbl : Table) : Bool :=
 def flags (tb : Tables) : List (String × Bool) :=
   let all : List Scalar := [.int, .int64, .float, .float64, .string, .id, .boolean, .time]
   let unsound := all.flatMap (fun s => (unsoundOutR tb.leafErrNulls s (outTables tb s)).map (fun p => flagOfArm tb.leafErrNulls s p.1 p.2))
-  [("D15", unsound.contains "D15"), ("D16", unsound.contains "D16"), ("D16-int", unsound.contains "D16-int"), ("D48", unsound.contains "D48"),
+  [("D15", unsound.contains "D15"), ("D16", unsound.contains "D16"), ("D16-int", unsound.contains "D16-int"), ("D16-float", unsound.contains "D16-float"), ("D48", unsound.contains "D48"),
    ("D17", true), ("D18", tb.fastSliceCopies)]
 
 end Ggql.Driver.C05
